@@ -698,3 +698,90 @@ def r7_oct_meet_bounds(ctx):
 
 
 RULES += [r7_oct_meet_bounds]
+
+
+def r8_dijkstra_edge_colour(ctx):
+    ctx.rule("C12.r8", "GraphOps::chrome_dijkstra (closure after a meet): the colour accumulated on a vertex D when the edge S -> D is "
+             "relaxed is the colour OF THAT EDGE, edge_marks[sz * S + D] - S being the vertex whose successor D is (the `es` of "
+             "edge_val(es, ed), or the source of e_succs in the seeding loop) - also on a tie between two equally short paths; the "
+             "colour of another edge into D marks D as reached from both operands, D is never expanded and a shortest path through it "
+             "is lost (the meet no longer entails f - a <= 3)", floor=3)
+    GO = "include/crab/domains/graphs/graph_ops.hpp"
+    n = 0
+    seen = set()
+    for fn in ctx.db.fns(GO):
+        body = fn.get("body")
+        if not body or "dijkstra" not in fn["name"] or (fn["name"], fn["line"]) in seen:
+            continue
+        seen.add((fn["name"], fn["line"]))
+        parents = {}
+        for x, ps in walk_with_parents(body):
+            parents[id(x)] = ps
+        for x in walk(body):
+            lhs = rhs = None
+            if x.get("k") == "asg":
+                lhs, rhs = strip(x.get("L")), x.get("R")
+            elif x.get("k") in ("casg",) or (x.get("k") == "bin" and x.get("op") in ("|=",)):
+                lhs, rhs = strip(x.get("L")), x.get("R")
+            elif x.get("k") == "call" and x.get("op") in ("=", "|=") and "o" in x and x.get("a"):
+                lhs, rhs = strip(x["o"]), x["a"][0]
+            if lhs is None or rhs is None:
+                continue
+
+            def index_of(e, arr):
+                e = strip(e)
+                if isinstance(e, dict) and e.get("k") in ("idx", "subscript") :
+                    b, i = e.get("b") or e.get("a"), e.get("i")
+                    if isinstance(strip(b), dict) and strip(b).get("n") == arr:
+                        return i
+                if isinstance(e, dict) and e.get("k") == "call" and e.get("op") == "[]" and "o" in e and e.get("a") and \
+                        isinstance(strip(e["o"]), dict) and strip(e["o"]).get("n") == arr:
+                    return e["a"][0]
+                return None
+            D = index_of(lhs, "vert_marks")
+            if D is None:
+                continue
+            em = [index_of(y, "edge_marks") for y in walk(rhs) if isinstance(y, dict)]
+            em = [i for i in em if i is not None]
+            if not em:
+                continue
+            idx = strip(em[0])
+            # idx = sz * A + B
+            if not (isinstance(idx, dict) and idx.get("k") == "bin" and idx.get("op") == "+"):
+                ctx.undecided("%s: edge_marks index `%s` is not of the form sz * S + D" % (fn["name"], src(idx)[:30]), fn, x)
+                continue
+            mul, B = strip(idx.get("L")), strip(idx.get("R"))
+            if not (isinstance(mul, dict) and mul.get("k") == "bin" and mul.get("op") == "*"):
+                mul, B = B, mul
+            if not (isinstance(mul, dict) and mul.get("k") == "bin" and mul.get("op") == "*"):
+                ctx.undecided("%s: edge_marks index `%s` is not of the form sz * S + D" % (fn["name"], src(idx)[:30]), fn, x)
+                continue
+            A = strip(mul.get("R")) if isinstance(strip(mul.get("L")), dict) and strip(mul["L"]).get("n") == "sz" else strip(mul.get("L"))
+            # the source vertex of the edge being relaxed
+            loops = [p for p in parents.get(id(x), []) if p.get("k") in ("rangefor", "for", "while")]
+            S = None
+            if loops:
+                inner = loops[-1]
+                ev = [c for c in walk(inner.get("b")) if is_call(c, name="edge_val") and len(c.get("a", [])) == 2 and same_expr(strip(c["a"][1]), strip(D))]
+                if ev:
+                    S = strip(ev[0]["a"][0])
+                elif inner.get("k") == "rangefor":
+                    es = [c for c in walk(inner.get("r")) if is_call(c, name=("e_succs", "succs")) and c.get("a")]
+                    if es:
+                        S = strip(es[0]["a"][0])
+            if S is None:
+                ctx.undecided("%s: the edge that is relaxed where vert_marks[%s] is written was not found" % (fn["name"], src(D)[:12]), fn, x)
+                continue
+            n += 1
+            if same_expr(B, strip(D)) and same_expr(A, S):
+                ctx.ok("%s: vert_marks[%s] takes the colour of the edge %s -> %s" % (fn["name"], src(D)[:8], src(S)[:8], src(D)[:8]), fn, x)
+            else:
+                ctx.bad("GraphOps::%s accumulates on vertex %s the colour edge_marks[sz * %s + %s] although the edge being relaxed is %s -> %s: "
+                        "on a tie the vertex is marked as reached from both operands and never expanded - the closure after a meet of "
+                        "{e-p<=1, e-q<=1} and {p-a<=1, q-a<=1, e-a<=10, f-e<=1} keeps f-a<=11 instead of f-a<=3" %
+                        (fn["name"], src(D)[:8], src(A)[:8], src(B)[:8], src(S)[:8], src(D)[:8]), fn, x, sig="dijkstra-colour-of-other-edge:%s" % fn["name"])
+    if n == 0:
+        ctx.fail("rule C12.r8: no colour accumulation found in the dijkstra routines")
+
+
+RULES += [r8_dijkstra_edge_colour]
